@@ -99,6 +99,7 @@ class Ctx:
         self.samples = []
         self.states = 0
         self.transitions = 0
+        self.records = {}
         self._n = 0
 
     def obs(self, *vals, nontrivial=True, n=1):
@@ -128,9 +129,13 @@ class Ctx:
         else:
             e["count"] += 1
 
+    def record(self, key, value):
+        """Keyed observation kept by the parent for cross-task comparisons (driver.post)."""
+        self.records[key] = jsonable(value)
+
     def dump(self):
         d = dict(evals=self.evals, hashes=list(self.hashes), counters=dict(self.counters),
                  viol=list(self.viol.values()), samples=self.samples,
-                 states=self.states, transitions=self.transitions)
+                 states=self.states, transitions=self.transitions, records=self.records)
         self.reset()
         return d
